@@ -1,31 +1,43 @@
-"""C11: equal? is structural (engine E1; pair shapes, one comparison step from any visited history)."""
+"""C11 (partial): sequences behave as their mathematical models at boundary indices -- byte vectors and
+strings, through the registered wrappers of the built-in procedures (engine E1, harness/idx.rs).
+The equality / hashing half of the property is NOT claimed (see DESIGN §4 C11: the real equality
+handler does not get through symbolic execution; harness/eq.rs is kept as the record)."""
 import p_kani
 
-RULE = ("each obligation is one Kani/CBMC query: the real RecursiveEqualityHandler run on two pairs with symbolic leaves "
-        "from a SYMBOLIC visited-set history (either object met before or not); asserted: the answer is the structural "
-        "equality of the contents; non-trivial = the covers 'left object met before, contents differ', 'right object met "
-        "before', 'fresh, equal' are satisfied")
+RULE = ("each obligation is one Kani/CBMC query: the registered wrapper of a sequence primitive (arity test, argument "
+        "conversions, body) executed on a two-element byte vector / a three-character string with symbolic contents and "
+        "full-width symbolic integer arguments; asserted: the answer is the one the mathematical sequence gives (element at "
+        "i, update at i, sub-sequence [s,e)) exactly for the valid indices and an error -- never a panic, never another "
+        "element -- otherwise; non-trivial = covers 'accepted', 'one past the end refused' satisfied")
 
-SPECS = [p_kani.Spec("steel-core", "steel-core/src/rvals/cycles.rs", "eq.rs", "verif_eq")]
-FUNCS = ["rvals::cycles::RecursiveEqualityHandler::{compare_equality, visit, should_visit}", "rvals::cycles::EqualityVisitor (queue operations)",
-         "values::lists::Pair::{cons, car, cdr}", "gc::Gc::{new, ptr_eq, as_ptr}"]
+SPECS = [p_kani.Spec("steel-core", "steel-core/src/primitives.rs", "idx.rs", "verif_idx")]
+FUNCS = ["primitives::bytevectors::{steel_bytes_ref, steel_bytes_set, steel_bytevector_copy_new, steel_bytes_to_string} (registered wrappers + bodies)",
+         "primitives::strings::{steel_string_ref, steel_integer_to_char}"]
 ASSUME = [
-    "the handler is driven with harness-owned queues and visited set, as the re-entrant arm of `impl PartialEq for SteelVal` does (the thread-local arm needs destructor-bearing thread-locals, which Kani cannot run)",
-    "stub: FxHashSet<(usize,usize)>::insert is a 12-entry association list (trusted: a set); thread_cleanup no-op; fmt::format empty",
-    "value kinds: pairs with integer leaves in [0,2]; lists, vectors, hash maps, structs are outside the bound (symbolic execution of deeper shapes did not finish: >1200 s, 12 GB)",
+    "containers: byte vector of 2 symbolic bytes, string of 3 characters in 4 bytes (one two-byte character); longer containers are outside the bound",
+    "stub: std::rt::thread_cleanup = no-op; alloc::fmt::format returns an empty String (error text is not checked, Err/Ok is); results are mem::forgotten",
+    "measured out (1200 s timeout each on a loaded machine, not in any tier): list-ref / list-tail / take (im-lists), vector-ref / immutable-vector-take (imbl RRB vector), substring, make-bytes",
+    "equal?, hashing, hash maps and hash sets are outside the claim",
 ]
-KF_VISITED = "eq:visited-marks-are-per-side"
 
 
 def plan(tier):
-    return [{"h": "eq_step_pair_with_visited_history", "sym": "leaves l0,l1,r0,r1 in [0,2]; seen_a, seen_b: bool",
-             "classify": {KF_VISITED: r"depends on what was visited before"},
-             "known": {KF_VISITED: "eq_step_pair_with_visited_history__kf"}}]
+    q = [
+        {"h": "idx_bytes_ref", "sym": "(bytes-ref (bytes a b) i): a, b: u8; i: isize (full width)"},
+        {"h": "idx_bytes_set", "sym": "(bytes-set! (bytes a b) i x): i, x: isize"},
+        {"h": "idx_bytes_copy", "sym": "(bytes-copy (bytes a b) s e): s, e: isize"},
+        {"h": "idx_string_ref", "sym": "(string-ref \"aβc\" i): i: isize"},
+    ]
+    t = [
+        {"h": "idx_bytes_to_string", "sym": "(bytes->string/utf8 (bytes a b) s e): a, b < 128; s, e: isize"},
+        {"h": "idx_integer_to_char", "sym": "(integer->char n): n: isize"},
+    ]
+    return q + (t if tier == "thorough" else [])
 
 
 def check(pid, tier, seed):
-    return p_kani.check(pid, tier, seed, SPECS, plan(tier), FUNCS, {"shapes": "pair of two integer leaves on each side", "unwind": 10},
-                        ASSUME, RULE, slots=2)
+    return p_kani.check(pid, tier, seed, SPECS, plan(tier), FUNCS, {"containers": "2 bytes / 3 characters", "integers": "full 64-bit", "unwind": "6-8"},
+                        ASSUME, RULE, slots=4)
 
 
 def replay(pid, path):
